@@ -17,3 +17,6 @@ TRUSTED = [
     "the bridge from these proved constructor postconditions to the index-eligibility axioms used by the C01 cone (contracts/model.py query_axioms) is an argument on paper: every SimpleQuery with a truthy hash is built by one of the constructors verified here",
 ]
 ASSUMPTIONS = ["A-mypy: query objects are only built through the public constructors", "user test/map functions are pure and deterministic (documented requirement)"]
+# the proof ASSUMES that equal hash tuples have identical components; known finding KF-21 (== identifies 1, 1.0, True) shows the property
+# itself fails for test() arguments that are equal but of different type, so the claim is not proof-level
+LEVEL = "other"
